@@ -282,6 +282,18 @@ def verify_a(f):
         if dec != want: return (f'small{n}-ellswift-decode', f'ellswift {f[3]}')
         if d > 0 and f[5] != dec.hex(): return (f'small{n}-ellswift-roundtrip', f'd={d}: create/decode != {d}*G')
         return None
+    if k == 'EZ':
+        d = int(f[2])
+        if f[3] == '-': return (f'small{n}-ellswift-create', f'd={d} failed')
+        res = f[3].split(',')[:-1]
+        if len(res) != n - 1: return ('HARNESS', 'EZ arity')
+        for e, tok in enumerate(res, start=1):
+            if tok == 'x': return (f'small{n}-ellswift-xdh-fails', f'd={d} e={e}')
+            xs, same = tok.split(':')
+            want = C.pts[d * e % n][0]          # x((d*e) G): both parties must arrive at it
+            if int(xs, 16) != want: return (f'small{n}-ellswift-xdh', f'd={d} e={e}: shared x {xs} want {want:064x}')
+            if same != '1': return (f'small{n}-ellswift-xdh-party', f'd={d} e={e}: party A and party B computations differ')
+        return None
     return ('HARNESS', 'unknown kind ' + k)
 
 
@@ -331,7 +343,7 @@ def main():
     except AssertionError as e:
         run.violation('small-curve-generator', f'generator constants of the exhaustive-test group are inconsistent: {e}', str(curves))
     work = [c for c in cases if not c.startswith('EG\t')]
-    work.sort(key=lambda l: -len(l))
+    work.sort(key=lambda l: (-len(l), l))   # longest first; total order so that samples and batches are reproducible
     heavy = [c for c in work if len(c) > 3000]
     light = [c for c in work if len(c) <= 3000]
     batches = [[c] for c in heavy] + [light[i:i + 50] for i in range(0, len(light), 50)]
@@ -352,13 +364,13 @@ def main():
         kk = f[0] + (f[1] if f[0][0] == 'E' and f[0] not in ('ED', 'EC', 'EX') else '')
         kinds[kk] = kinds.get(kk, 0) + 1
         # aggregated lines carry one verdict per character / list entry
-        evals += len(c.rsplit('\t', 1)[1]) if f[0] in ('EW', 'EV') else (c.count(',') if f[0] in ('ES', 'ET') else 1)
-        run.distinct.add(c.rsplit('\t', 1)[0] if f[0] in ('EW', 'EV', 'ES', 'ET') else c)
+        evals += len(c.rsplit('\t', 1)[1]) if f[0] in ('EW', 'EV') else (c.count(',') if f[0] in ('ES', 'ET', 'EZ') else 1)
+        run.distinct.add(c.rsplit('\t', 1)[0] if f[0] in ('EW', 'EV', 'ES', 'ET', 'EZ') else c)
     run.evaluations = evals
     run.extra['case_kinds'] = dict(sorted(kinds.items()))
     run.extra['reference_batches_completed'] = f'{done}/{len(batches)}'
     run.extra['cpp_side'] = stats
-    need = ['SK', 'PP', 'XP', 'SG', 'VF', 'RS', 'SS', 'SV', 'TW', 'TA', 'KT', 'ED', 'EC', 'EX'] + [k + str(n) for n in (13, 199) for k in ('EP', 'EQ', 'ES', 'EW', 'EH', 'EV', 'ET', 'EL')]
+    need = ['SK', 'PP', 'XP', 'SG', 'VF', 'RS', 'SS', 'SV', 'TW', 'TA', 'KT', 'ED', 'EC', 'EX'] + [k + str(n) for n in (13, 199) for k in ('EP', 'EQ', 'ES', 'EW', 'EH', 'EV', 'ET', 'EL', 'EZ')]
     missing = [k for k in need if not kinds.get(k)]
     if stats.get('bip340_vectors', 0) < 10 or stats.get('ellswift_decode_vectors', 0) < 10: missing.append('vector files')
     if missing and not run.violations and not incomplete:
@@ -370,7 +382,7 @@ def main():
     rule = ('(b) real curve: every alphabet value as secret key, public-key x (all header bytes, right/wrong y, hybrid), ECDSA (key x message x nonce) with fixed nonces and RFC6979 through CKey::Sign, '
             'verification of every produced signature, its high-S twin, DER variants and the full (r,s) grid through secp256k1_ecdsa_verify and CPubKey::Verify, BIP340 sign/verify grids, taproot and raw tweaks, '
             'ElligatorSwift decode of every (u,t), create, BIP324 ECDH; (a) groups of order 13 and 199: every secret key, every (key,message,nonce) signature, every (r,s) verdict '
-            '(order 199 quick: boundary keys x 2 messages; thorough: all keys x 5 messages), BIP340 sign and (R.x,s) verdict maps, every x-only tweak, ElligatorSwift create/decode. '
+            '(order 199 quick: boundary keys x 2 messages; thorough: all keys x 5 messages), BIP340 sign and (R.x,s) verdict maps, every x-only tweak, ElligatorSwift create/decode and x-only ECDH between every pair of keys. '
             'evaluations = individual verdicts/values compared with the reference; distinct = distinct case descriptors')
     return run.finish(rule=rule, exhaustive=not incomplete)
 
